@@ -288,6 +288,17 @@ def sibling_history_cases(cases, rng, n):
             out.append(Case(line, kind, exp, dict(sib=True)))
     return out
 
+def _nibble_shift(b):
+    """`0a bc` -> `ab 0c` at the first byte whose high nibble is zero (and whose neighbours make the result different): the two have the
+    same rendering when each byte is printed without zero padding — what a comparison through an unpadded hex / decimal string confuses"""
+    h = b.hex()
+    for p in range(0, len(h) - 3, 2):
+        if h[p] == "0" and h[p + 2] != "0":
+            h2 = h[:p] + h[p + 1] + h[p + 2] + "0" + h[p + 3:]
+            if h2 != h:
+                return bytes.fromhex(h2)
+    return b
+
 STRUCT_TRANSFORMS = [
     ("reversed", lambda b, o: b[::-1]),
     ("rotated-one-byte", lambda b, o: b[1:] + b[:1]),
@@ -295,6 +306,7 @@ STRUCT_TRANSFORMS = [
     ("halves-swapped", lambda b, o: b[len(b) // 2:] + b[:len(b) // 2]),
     ("most-significant-byte-changed", lambda b, o: b[:-1] + bytes([b[-1] ^ 0x5a])),
     ("least-significant-byte-changed", lambda b, o: bytes([b[0] ^ 0xa5]) + b[1:]),
+    ("nibbles-shifted-across-a-zero-nibble", lambda b, o: _nibble_shift(b)),
     ("all-zero", lambda b, o: bytes(len(b))),
     ("all-ff", lambda b, o: b"\xff" * len(b)),
     ("equal-to-another-argument", lambda b, o: o),
